@@ -132,8 +132,9 @@ class TensorIOPreparer:
         tensor_out: torch.Tensor,
         buffer_size_limit_bytes: int,
     ) -> Tuple[List[ReadReq], Future[torch.Tensor]]:
-        num_chunks = math.ceil(
-            cls.get_tensor_size_from_entry(entry) / buffer_size_limit_bytes
+        num_chunks = max(
+            math.ceil(cls.get_tensor_size_from_entry(entry) / buffer_size_limit_bytes),
+            1,
         )
         # Try to flatten the tensor without copying to achieve better chunking granularity.
         # This is only possible if the tensor satisfies the contiguity condition described in:
